@@ -18,6 +18,11 @@ def cases(tier, seed):
     for nb, ws in ((1, (1, 2)), (2, (1, 2, F(1, 2)))):
         for cands, bl in gen.profiles_exhaustive(3, nb, [F(w) for w in ws], ties=True):
             cs.append((cands, bl))
+    # tallies that differ exactly but coincide as IEEE doubles (2^53 vs 2^53+1; 1/3 vs 1/3 + 10^-18), both candidate labelings
+    A, B, C = (frozenset(x) for x in "ABC")
+    for x, y in ((F(2 ** 53), F(2 ** 53 + 1)), (F(1, 3), F(1, 3) + F(1, 10 ** 18)), (F(10 ** 17), F(10 ** 17) + F(1, 2))):
+        for p, q in (("A", "B"), ("B", "A"), ("C", "A"), ("A", "C")):
+            cs.append((gen.NAMES[:3], [((frozenset(p),), x), ((frozenset(q),), y)]))
     if tier == "thorough":
         rng = random.Random(seed)
         for cands, bl in gen.profiles_random(rng, 6000, ncands_range=(2, 5), ties=True, weights=(1, 2, 3, F(2, 3), F(1, 7))):
